@@ -20,9 +20,10 @@ ROOT = os.path.dirname(os.path.dirname(os.path.abspath(__file__)))
 TARGET = "/tmp/mutv-target"
 
 
-def sh(cmd, cwd, timeout=1800):
+def sh(cmd, cwd, timeout=1800, shared_target=True):
     env = dict(os.environ)
-    env["CARGO_TARGET_DIR"] = TARGET
+    if shared_target:
+        env["CARGO_TARGET_DIR"] = TARGET
     env["CARGO_NET_OFFLINE"] = "true"
     try:
         proc = subprocess.run(cmd, cwd=cwd, shell=isinstance(cmd, str),
@@ -73,17 +74,27 @@ def verify(name):
             return res
         res["demo_cmd"] = cmd
         rc_with, out_with = sh(cmd, wt)
+        shared = True
+        if rc_with == 127 or "not found" in out_with[-300:]:
+            # The script expects the default target directory.
+            shared = False
+            rc_with, out_with = sh(cmd, wt, shared_target=False)
         res["demo_with_change_exit"] = rc_with
         res["demo_with_change_tail"] = out_with.strip().splitlines()[-4:]
         sh(["git", "checkout", "--", "src"], wt)
         sh(["git", "apply", "-R", "--check", "MUTANT/patch.diff"], wt)
         rc, _ = sh(["git", "diff", "--quiet", "--", "src"], wt)
         res["reverted_clean"] = rc == 0
-        rc_without, out_without = sh(cmd, wt)
+        rc_without, out_without = sh(cmd, wt, shared_target=shared)
         res["demo_without_change_exit"] = rc_without
         res["demo_without_change_tail"] = out_without.strip().splitlines()[-4:]
+        # Some scripts always exit 0: also look at the test result lines.
+        failed_with = rc_with != 0 or "test result: FAILED" in out_with
+        passed_without = (
+            rc_without == 0 and "test result: FAILED" not in out_without
+        )
         res["confirmed"] = bool(
-            res["suite_31_passed"] and rc_with != 0 and rc_without == 0
+            res["suite_31_passed"] and failed_with and passed_without
         )
     finally:
         sh(["git", "-C", "/repo", "worktree", "remove", "--force", wt], "/repo")
